@@ -7,6 +7,7 @@ import (
 	"errors"
 	"fmt"
 	"io"
+	"math"
 	"net/http"
 	"net/url"
 	"slices"
@@ -372,7 +373,11 @@ func (r *registry) acquireAccessToken(ctx context.Context, requiredScope, wantSc
 	if tok.ExpiresIn == 0 {
 		expires = now.Add(60 * time.Second) // TODO link to where this is mentioned
 	} else {
-		expires = now.Add(time.Duration(tok.ExpiresIn) * time.Second)
+		// Saturate instead of letting the int64 nanosecond product wrap:
+		// a lifetime beyond ±292 years would otherwise change sign.
+		const maxSeconds = math.MaxInt64 / int64(time.Second)
+		seconds := min(max(int64(tok.ExpiresIn), -maxSeconds), maxSeconds)
+		expires = now.Add(time.Duration(seconds) * time.Second)
 	}
 	r.accessTokens = append(r.accessTokens, &scopedToken{
 		scope:   scope,
